@@ -210,10 +210,10 @@ func calculateOrgDocumentRefs(drs []*org.DocumentRef, cur currency.Code, rr cbc.
 		if dr == nil {
 			continue
 		}
+		c := cur // each reference falls back to the document's currency
 		if dr.Currency != currency.CodeEmpty {
-			cur = dr.Currency
+			c = dr.Currency
 		}
-		c := cur
 		if c.Def() == nil {
 			return validation.Errors{
 				"preceding": validation.Errors{
